@@ -11,5 +11,5 @@ CONSTANTS
   NC3 = 2
   AliasBug = FALSE
 VIEW View
-INVARIANTS EmitR
+INVARIANTS InvExactWins InvLongestPrefix InvDenyOverrides InvDefaultDecides InvMergeOrderFree InvVariantsAgree InvTotal EmitR
 CHECK_DEADLOCK FALSE
